@@ -40,6 +40,7 @@ type Delivery struct {
 	ID       int              `json:"id"`
 	Phase    int              `json:"phase"`
 	AtUs     int              `json:"at_us"` // offset from the opening of the phase
+	AbsUs    int64            `json:"abs_us,omitempty"` // >0: not before this absolute simulated time
 	Proto    string           `json:"proto"`
 	Exporter int              `json:"exporter"`
 	Abs      *model.Msg       `json:"abs,omitempty"`
@@ -394,6 +395,8 @@ func runPipe(p *PipePlan, ch *simrt.Choices, trace bool, adopt map[string][]byte
 	obs := &PipeObs{Files: map[string][]byte{}, DeliveredAt: map[int]time.Duration{}, DeliveredSeq: map[int]uint64{}, QuiescentAfter: map[int]uint64{}}
 	sim := simrt.New(ch)
 	defer sim.Close()
+	simrt.SetFuel(20000000)
+	defer simrt.SetFuel(0)
 	c := &p.Cfg
 	sim.TraceOn = trace
 	sim.StallProb = c.StallProb
@@ -477,6 +480,9 @@ func runPipe(p *PipePlan, ch *simrt.Choices, trace bool, adopt map[string][]byte
 			if da.Phase != db.Phase {
 				return da.Phase < db.Phase
 			}
+			if da.AbsUs != db.AbsUs {
+				return da.AbsUs < db.AbsUs
+			}
 			return da.AtUs < db.AtUs
 		})
 		port := c.port(pr)
@@ -487,6 +493,9 @@ func runPipe(p *PipePlan, ch *simrt.Choices, trace bool, adopt map[string][]byte
 				<-gates[d.Phase]
 				simrt.Yield(-21)
 				wait := opened[d.Phase] + time.Duration(d.AtUs)*time.Microsecond - sim.Now()
+				if d.AbsUs > 0 {
+					wait = time.Duration(d.AbsUs)*time.Microsecond - sim.Now()
+				}
 				if wait > 0 {
 					simrt.Sleep(wait)
 				}
@@ -712,6 +721,35 @@ func execPipe(t *testing.T, prop string, planJSON []byte, ch *simrt.Choices, tra
 	}
 	fillRunOut(out, &p, obs)
 	evalPipe(prop, &p, obs, out)
+	if prop == "C16" && len(out.Violations) == 0 && obs.PanicVal == "" && !obs.Exited {
+		// mirroring must not change what is decoded and published: the same
+		// plan with mirroring off (own choice stream, derived from the plan)
+		q := p
+		q.Cfg.MirrorIPFIX, q.Cfg.MirrorSFlow = "", ""
+		finalizePipe(&q)
+		var obs2 *PipeObs
+		if pv := bubble(t, func() { obs2 = runPipe(&q, simrt.NewChoices(int64(out.PlanHash>>1)), false, nil) }); pv == nil && obs2.PanicVal == "" && obs2.HarnessErr == "" {
+			a, b := indexPublished(obs), indexPublished(obs2)
+			for k, pa := range a {
+				pb := b[k]
+				if len(pa) != len(pb) {
+					out.Violations = append(out.Violations, Violation{Prop: prop, Class: "mirror-changes-output", Key: "message count",
+						Msg: fmt.Sprintf("key %s: %d messages published with mirroring on, %d with mirroring off", k, len(pa), len(pb))})
+					break
+				}
+				if len(pa) > 0 {
+					x := reColTime.ReplaceAll(obs.Published[pa[0]].Payload, []byte(`"ColTime":0`))
+					y := reColTime.ReplaceAll(obs2.Published[pb[0]].Payload, []byte(`"ColTime":0`))
+					if !bytes.Equal(x, y) {
+						out.Violations = append(out.Violations, Violation{Prop: prop, Class: "mirror-changes-output", Key: "message content",
+							Msg: fmt.Sprintf("key %s is published differently with mirroring on:\n on:  %s\n off: %s", k, tail(string(x), 300), tail(string(y), 300))})
+						break
+					}
+				}
+			}
+			out.Probes["mirror-off-differential-runs"]++
+		}
+	}
 	if simrt.RaceBuild && prop == "C12" {
 		checkRaceLog(prop, raceMark, out, pipeRaceScope)
 	}
@@ -729,6 +767,7 @@ func fillRunOut(out *RunOut, p *PipePlan, obs *PipeObs) {
 	out.Faults["preemption"] += int(obs.Stats.Preemptions)
 	out.Faults["socket-overflow"] += obs.Overflow
 	out.Faults["pool-reuse"] += obs.Pool.Reused
+	out.Probes["pool-double-put-seen"] += obs.Pool.DoublePut
 	for _, d := range p.Dels {
 		for _, m := range d.Mut {
 			out.Faults["net-"+m.Kind]++
@@ -750,10 +789,27 @@ func fillRunOut(out *RunOut, p *PipePlan, obs *PipeObs) {
 	}
 	out.Probes["published"] += len(obs.Published)
 	out.Probes["received"] += len(obs.Recv)
+	out.Probes["raw-packets-mirrored"] += len(obs.Raw)
 	if obs.HarnessErr != "" {
 		out.Inconclusive = "harness: " + obs.HarnessErr
 	} else if obs.Stop == simrt.StopSteps || obs.Stop == simrt.StopDeadline {
 		out.Inconclusive = obs.Stop
+	}
+	if p.Cfg.DynWorkers {
+		out.Probes["dyn-runs"]++
+		if obs.Stats.TasksMade > 40 {
+			out.Probes["dyn-scaled-up"]++
+			for _, sn := range obs.Snaps {
+				if sn.Phase >= 2 && sn.Stats != nil {
+					for _, pr := range allProtos {
+						if st := sn.Stats.get(pr); st != nil && p.Cfg.Enabled[pr] && int(st.Workers) < p.Cfg.Workers[pr]+30 {
+							out.Probes["dyn-scaled-down"]++
+						}
+					}
+					break
+				}
+			}
+		}
 	}
 	// state fingerprint: counters at phase ends
 	var h uint64
